@@ -26,13 +26,15 @@ def plan(tier):
     q += [{"h": "conv_into_%s" % t, "sym": "v: %s (full width)" % t} for t in ("u64", "i64")]
     q += [{"h": "conv_char_bool_unit", "sym": "c: char, b: bool, i: isize"},
           {"h": "conv_into_u128", "sym": "v: u128 < 2^70"},
-          {"h": "conv_from_big_i64", "sym": "big integer a, 2^63 <= |a| < 2^66, as i64"}]
+          {"h": "conv_from_big_i64", "sym": "big integer a, 2^63 <= |a| < 2^66, as i64"},
+          {"h": "conv_roundtrip_u64", "sym": "v: u64 (full width): into the script side and back"}]
     t = [{"h": "conv_from_%s" % t, "sym": "x: isize"} for t in INTS if t not in ("i32", "u64", "usize", "u8")]
     t += [{"h": "conv_into_%s" % t, "sym": "v: %s" % t} for t in INTS if t not in ("u64", "i64")]
     t += [{"h": "conv_fromtrait_%s" % t, "sym": "v: %s" % t} for t in ("u64", "u32", "i64", "usize")]
     t += [{"h": "conv_f64_roundtrip", "sym": "v: f64 (all bit patterns)"}, {"h": "conv_f32_roundtrip", "sym": "v: f32"},
           {"h": "conv_option_i32", "sym": "Option<i32>"},
-          {"h": "conv_from_big_u8", "sym": "big integer as u8"}, {"h": "conv_from_big_i8", "sym": "big integer as i8"}]
+          {"h": "conv_from_big_u8", "sym": "big integer as u8"}, {"h": "conv_from_big_i8", "sym": "big integer as i8"},
+          {"h": "conv_roundtrip_usize", "sym": "v: usize"}, {"h": "conv_roundtrip_i64", "sym": "v: i64"}, {"h": "conv_roundtrip_u32", "sym": "v: u32"}]
     return q + (t if tier == "thorough" else [])
 
 
